@@ -206,7 +206,7 @@ impl World {
         self.sh.arena_mut(a).resurrected.clear();
     }
 
-    pub fn ev_new_arena(&mut self, a: Aid, root_set: Id, ops: &mut Vec<Op>, p: PacingSpec, fail: CtorFail, bare: bool, g: GenRef<'_>) {
+    pub fn ev_new_arena(&mut self, a: Aid, root_set: Id, ops: &mut Vec<Op>, p: PacingSpec, fail: CtorFail, bare: bool, static_root: bool, g: GenRef<'_>) {
         let ai = a as usize;
         if self.arenas.len() > ai && (self.arenas[ai].is_some() || self.sh.arenas[ai].is_some()) {
             return;
@@ -237,13 +237,32 @@ impl World {
             let me = &mut *self;
             guarded(|| {
                 let _t = seam::track();
+                if static_root {
+                    // a root that holds no pointers: the constructor ops only make garbage
+                    me.sh.next_id = me.sh.next_id.max(root_set + 2);
+                    return match fail {
+                        CtorFail::No => Ok(ArenaBox::S(ArenaS::new(|mc| {
+                            let _p = seam::pause();
+                            static_owned_body(me, a, mc, Phase::Sleeping, true, &mut src, false);
+                            RootS { generation: 0 }
+                        }))),
+                        CtorFail::TryNewOk | CtorFail::TryNewErr => ArenaS::try_new(|mc| {
+                            let _p = seam::pause();
+                            let failing = fail == CtorFail::TryNewErr;
+                            static_owned_body(me, a, mc, Phase::Sleeping, true, &mut src, failing);
+                            if failing { Err(()) } else { Ok(RootS { generation: 0 }) }
+                        })
+                        .map(ArenaBox::S),
+                    };
+                }
                 match fail {
                     CtorFail::No => Ok(ArenaA::new(|mc| {
                         let _p = seam::pause();
                         let mut rb = new_root_body(me, a, mc, root_set, bare);
                         owned_body(me, a, mc, &mut rb, Phase::Sleeping, true, &mut src, false);
                         RootA { body: rb }
-                    })),
+                    }))
+                    .map(ArenaBox::A),
                     CtorFail::TryNewOk | CtorFail::TryNewErr => ArenaA::try_new(|mc| {
                         let _p = seam::pause();
                         let mut rb = new_root_body(me, a, mc, root_set, bare);
@@ -251,7 +270,8 @@ impl World {
                         let failing = fail == CtorFail::TryNewErr;
                         owned_body(me, a, mc, &mut rb, Phase::Sleeping, true, &mut src, failing);
                         if failing { Err(()) } else { Ok(RootA { body: rb }) }
-                    }),
+                    })
+                    .map(ArenaBox::A),
                 }
             })
         };
@@ -261,13 +281,14 @@ impl World {
         self.process_events(&empty, &empty);
         match res {
             Caught::Ok(Ok(arena)) => {
-                let metrics = arena.metrics().clone();
+                let mut arena = arena;
+                let metrics = with_arena!(arena, ar => ar.metrics().clone());
                 {
                     let _g = seam::enter(seam::CTX_OUTSIDE, a as u16);
                     let _t = seam::track();
                     metrics.set_pacing(p.to_pacing());
                 }
-                self.arenas[ai] = Some(ArenaSlot { arena: ArenaBox::A(arena), metrics });
+                self.arenas[ai] = Some(ArenaSlot { arena, metrics });
                 self.sigmix(0xA0);
                 self.check_metrics(a);
             }
@@ -354,6 +375,7 @@ impl World {
             self.stats.flag("C03.gray-pending");
         }
         let mut slot: Option<ArenaSlot> = self.arenas[a as usize].take();
+        let s_is_static = slot.as_ref().map(|s| matches!(s.arena, ArenaBox::S(_)));
         let recorded = std::mem::take(ops);
         let mut out = vec![];
         let ctxg = seam::enter(seam::CTX_CALLBACK, a as u16);
@@ -366,14 +388,19 @@ impl World {
                     let s = slot.as_mut().unwrap();
                     guarded(|| {
                         let _t = seam::track();
-                        Some(with_arena!(s.arena, ar => ar.mutate(|mc, root| body(me, a, mc, None, RootRef::Shared(&root.body), p, false, &mut src))))
+                        Some(with_arena_root!(s.arena, ar => ar.mutate(|mc, root| body(me, a, mc, None, RootRef::Shared(&root.body), p, false, &mut src)),
+                            ar => ar.mutate(|mc, _root| static_body(me, a, mc, p, false, &mut src))))
                     })
                 }
                 CbKind::MutateRoot => {
                     let s = slot.as_mut().unwrap();
                     guarded(|| {
                         let _t = seam::track();
-                        Some(with_arena!(s.arena, ar => ar.mutate_root(|mc, root| body(me, a, mc, None, RootRef::Mut(&mut root.body), p, false, &mut src))))
+                        Some(with_arena_root!(s.arena, ar => ar.mutate_root(|mc, root| body(me, a, mc, None, RootRef::Mut(&mut root.body), p, false, &mut src)),
+                            ar => ar.mutate_root(|mc, root| {
+                                root.generation += 1;
+                                static_body(me, a, mc, p, false, &mut src)
+                            })))
                     })
                 }
                 CbKind::MapRoot | CbKind::TryMapRoot | CbKind::TryMapRootErr => {
@@ -418,7 +445,7 @@ impl World {
         match slot {
             Some(s) => {
                 self.arenas[a as usize] = Some(s);
-                if consuming {
+                if consuming && !matches!(s_is_static, Some(true)) {
                     let b = &mut self.sh.arena_mut(a).root_is_b;
                     *b = !*b;
                 }
@@ -492,6 +519,31 @@ impl Drop for TearDownOnUnwind {
     }
 }
 
+/// Callback body for an arena whose root holds no pointers: the ops see an empty root body that
+/// is never written to (root writes are skipped: the shared form of `RootRef`).
+fn static_body<'gc>(me: &mut World, a: Aid, mc: &'gc Mutation<'gc>, p: Phase, constructing: bool, src: &mut Src<'_>) -> CbReport {
+    let rb = {
+        let _p = seam::pause();
+        empty_root_body(ROOT_SITE + a as u32)
+    };
+    let rep = body(me, a, mc, None, RootRef::Shared(&rb), p, constructing, src);
+    let _p = seam::pause();
+    drop(rb);
+    rep
+}
+
+/// The same for a consuming callback (`new`, `try_new`, `map_root`, `try_map_root`).
+fn static_owned_body<'gc>(me: &mut World, a: Aid, mc: &'gc Mutation<'gc>, p: Phase, constructing: bool, src: &mut Src<'_>, fail: bool) -> (CbReport, bool) {
+    let guard = TearDownOnUnwind;
+    let rep = static_body(me, a, mc, p, constructing, src);
+    if fail {
+        drop(guard);
+    } else {
+        std::mem::forget(guard);
+    }
+    (rep, fail)
+}
+
 /// Body of a callback that owns the root by value: a panic or an `Err` tears the arena down.
 fn owned_body<'gc>(me: &mut World, a: Aid, mc: &'gc Mutation<'gc>, rb: &mut RootBody<'gc>, p: Phase, constructing: bool, src: &mut Src<'_>, fail: bool) -> (CbReport, bool) {
     let guard = TearDownOnUnwind;
@@ -509,6 +561,19 @@ fn owned_body<'gc>(me: &mut World, a: Aid, mc: &'gc Mutation<'gc>, rb: &mut Root
 fn map_arena(me: &mut World, a: Aid, arena: ArenaBox, cbk: CbKind, p: Phase, rep: &mut Option<CbReport>, src: &mut Src<'_>) -> Option<ArenaBox> {
     let fail = cbk == CbKind::TryMapRootErr;
     match (arena, cbk) {
+        (ArenaBox::S(ar), CbKind::MapRoot) => Some(ArenaBox::S(ar.map_root::<gc_arena::Rootable![RootS]>(|mc, root| {
+            let _p = seam::pause();
+            *rep = Some(static_owned_body(me, a, mc, p, false, src, false).0);
+            RootS { generation: root.generation + 1 }
+        }))),
+        (ArenaBox::S(ar), _) => ar
+            .try_map_root::<gc_arena::Rootable![RootS], ()>(|mc, root| {
+                let _p = seam::pause();
+                *rep = Some(static_owned_body(me, a, mc, p, false, src, fail).0);
+                if fail { Err(()) } else { Ok(RootS { generation: root.generation + 1 }) }
+            })
+            .ok()
+            .map(ArenaBox::S),
         (ArenaBox::A(ar), CbKind::MapRoot) => Some(ArenaBox::B(ar.map_root::<gc_arena::Rootable![RootB<'_>]>(|mc, root| {
             let _p = seam::pause();
             let mut rb = root.body;
